@@ -1,0 +1,40 @@
+//! Verification hooks: thin public wrappers around crate-private items so that
+//! an external harness can compare them one function at a time against a formal
+//! model. Compiled only with `--cfg jomini_verif`; adds no behaviour.
+#![allow(missing_docs)]
+
+pub fn fast_digit_parse(val: u64) -> Option<u64> {
+    crate::util::fast_digit_parse(val)
+}
+
+pub fn repeat_byte(b: u8) -> u64 {
+    crate::util::repeat_byte(b)
+}
+
+pub fn contains_zero_byte(x: u64) -> bool {
+    crate::util::contains_zero_byte(x)
+}
+
+pub fn count_chunk(value: u64, byte: u8) -> u64 {
+    crate::util::count_chunk(value, byte)
+}
+
+pub fn leading_whitespace(value: u64) -> u32 {
+    crate::util::leading_whitespace(value)
+}
+
+pub fn boundary(b: u8) -> u8 {
+    crate::data::boundary(b)
+}
+
+pub fn windows_1252(b: u8) -> char {
+    crate::data::WINDOWS_1252[usize::from(b)]
+}
+
+pub fn to_u64_t(d: &[u8], start: u64) -> Result<(u64, &[u8]), crate::ScalarError> {
+    crate::scalar::to_u64_t(d, start)
+}
+
+pub fn to_i64_t(d: &[u8]) -> Result<(i64, &[u8]), crate::ScalarError> {
+    crate::scalar::to_i64_t(d)
+}
